@@ -367,7 +367,7 @@ def rule_ray_walk(ctx):
     rv = ctx.body("board::bitboard::Bitboard::bitscan_reverse_helper")
     rsym = ctx.sym(rv)
     r = rsym.local(0)
-    ok = r[0] == "field" and r[-1] == "0" and r[1][0] == "bin" and r[1][1].startswith("Sub") and r[1][2] == ("const", 63, "u32") and r[1][3][0] == "call" and r[1][3][1].endswith("leading_zeros")
+    ok = r[0] == "bin" and r[1].startswith("Sub") and r[2] == ("const", 63, "u32") and r[3][0] == "call" and r[3][1].endswith("leading_zeros")
     ctx.check(ok, "bitboard:bitscan_reverse-is-63-minus-lz", "bitscan_reverse = 63 - leading_zeros (index of the highest set bit)", rv.where(0), bad_what="bitscan_reverse computes `%s`" % expr_str(r))
     for fn in ("bitscan_forward", "bitscan_reverse"):
         wb = ctx.body("board::bitboard::Bitboard::" + fn)
